@@ -396,7 +396,7 @@ func (group *Group) KickSession(sessionId string) bool {
 func (group *Group) IsInactive() bool {
 	group.mutex.Lock()
 	defer group.mutex.Unlock()
-	return group.isTotalEmpty() && !group.isPullModuleAlive()
+	return group.isTotalEmpty() && !group.isPullModuleAlive() && !group.isPushModuleAlive()
 }
 
 func (group *Group) HasInSession() bool {
